@@ -1,7 +1,8 @@
 (** * C07 property theorems — statements only; proofs live in
     C07/StreamsProofs.v and C07/CellsProofs.v. *)
 From Coq Require Import List Arith Permutation String Bool.
-From Celer Require Import C07.Streams C07.StreamsProofs Generated.C07_cells C07.Cells C07.CellsProofs.
+From Celer Require Import C07.Streams C07.StreamsProofs Generated.C07_cells C07.Cells C07.CellsProofs
+  C07.Stores C07.StoresProofs.
 Import ListNotations.
 
 (** The final state of a stream depends only on the number of steps it took
@@ -91,3 +92,75 @@ Theorem C07_unsync_use_rows_current :
   forallb (fun r => existsb (fun u => key3_eqb (fst r) (use_key u)) unsync_uses) unsync_use_reviewed = true.
 Proof. exact unsync_use_rows_current. Qed.
 Print Assumptions C07_unsync_use_rows_current.
+
+(** ** Index model of the per-stream stores (coq/C07/Stores.v): StreamStore's
+    vector indexed by StreamId and the per-CoreState AuxStateVec indexed by AuxId.
+    The disjointness of the streams' cells, assumed by the function-update shape
+    of [step_stream] above, is DERIVED here from the index arithmetic. *)
+
+(** a step of stream [i] on the shared vector is exactly the function update
+    (nobody else's entry changes), provided the CELER_EXPECT range obligation *)
+Theorem C07_ss_step_refines :
+  forall (C : Type) (f : C -> C) (d : C) (mem : list C) (i : nat),
+    i < List.length mem ->
+    exists mem', ss_step C f mem i = Some mem'
+      /\ List.length mem' = List.length mem
+      /\ forall j, ss_abs C d mem' j = upd Nat.eq_dec (ss_abs C d mem) i (f (ss_abs C d mem i)) j.
+Proof. exact ss_step_refines. Qed.
+Print Assumptions C07_ss_step_refines.
+
+(** an out-of-range stream id is the (compiled-out) assertion site *)
+Theorem C07_ss_step_error :
+  forall (C : Type) (f : C -> C) (mem : list C) (i : nat),
+    List.length mem <= i -> ss_step C f mem i = None.
+Proof. exact ss_step_error. Qed.
+Print Assumptions C07_ss_step_error.
+
+(** every interleaving on the shared StreamStore vector equals the serial
+    execution; hypothesis: only the range obligation of the stream ids *)
+Theorem C07_ss_interleaving_equals_serial :
+  forall (C : Type) (f : C -> C) (d : C) (streams sched : list nat) (mem : list C),
+    NoDup streams -> (forall i, In i sched -> In i streams) ->
+    (forall i, In i streams -> i < List.length mem) ->
+    exists m1 m2, ss_run C f sched mem = Some m1
+      /\ ss_run C f (serial Nat.eq_dec streams sched) mem = Some m2
+      /\ forall j, ss_abs C d m1 j = ss_abs C d m2 j.
+Proof. exact ss_interleaving_equals_serial. Qed.
+Print Assumptions C07_ss_interleaving_equals_serial.
+
+(** AuxStateVec: a write at (stream i, aux a) is seen at (i, a) and nowhere else *)
+Theorem C07_aux_set_get :
+  forall (A : Type) (mem : aux_mem A) (i a : nat) (v : A) (mem' : aux_mem A),
+    aux_set A mem i a v = Some mem' ->
+    forall j b, aux_get A mem' j b = if (Nat.eqb j i && Nat.eqb b a)%bool then Some v else aux_get A mem j b.
+Proof. exact aux_set_get. Qed.
+Print Assumptions C07_aux_set_get.
+
+Theorem C07_aux_streams_disjoint :
+  forall (A : Type) (mem : aux_mem A) (i a : nat) (v : A) (mem' : aux_mem A) (j b : nat),
+    aux_set A mem i a v = Some mem' -> j <> i -> aux_get A mem' j b = aux_get A mem j b.
+Proof. exact aux_streams_disjoint. Qed.
+Print Assumptions C07_aux_streams_disjoint.
+
+Theorem C07_aux_construct_complete :
+  forall (A : Type) (create : nat -> nat -> A) (stream naux a : nat),
+    a < naux -> nth_error (aux_construct A create stream naux) a = Some (create stream a).
+Proof. exact aux_construct_complete. Qed.
+Print Assumptions C07_aux_construct_complete.
+
+Theorem C07_flat_index_inj :
+  forall naux i a j b : nat,
+    a < naux -> b < naux -> flat_index naux i a = flat_index naux j b -> i = j /\ a = b.
+Proof. exact flat_index_inj. Qed.
+Print Assumptions C07_flat_index_inj.
+
+(** non-vacuity *)
+Theorem C07_stores_examples :
+  (ss_run nat S [1; 0; 1; 2; 1] [10; 20; 30] = Some [11; 23; 31]
+   /\ ss_run nat S (serial Nat.eq_dec [0; 1; 2] [1; 0; 1; 2; 1]) [10; 20; 30] = Some [11; 23; 31]
+   /\ ss_run nat S [3] [10; 20; 30] = None)
+  /\ (aux_set nat [[1; 2]; [3; 4]] 1 0 9 = Some [[1; 2]; [9; 4]]
+      /\ aux_get nat [[1; 2]; [9; 4]] 0 0 = Some 1
+      /\ aux_set nat [[1; 2]; [3; 4]] 1 2 9 = None).
+Proof. exact (conj ex_ss_run ex_aux). Qed.
+Print Assumptions C07_stores_examples.
